@@ -1,0 +1,135 @@
+//go:build verif
+
+package fp
+
+// Contracts for Promise / Future (future.go) — property C05 — checked by
+// /verif/govc.  Comment-only file.
+//
+// Method: rely/guarantee.  The status cell of a promise holds Nil, Pending(l)
+// (a list of callbacks) or Done(t).  promGuar is the set of steps any thread
+// may take; promRely is its reflexive-transitive closure (what all other
+// threads together may have done between two atomic steps of this thread).
+// Every atomic load / compare-and-swap of the code under contract is preceded
+// by an arbitrary promRely step of the environment; every successful
+// compare-and-swap generates the obligation that it is a promGuar step; every
+// write to memory not allocated by the current call is a frame violation
+// (a published callback list is never written again).
+
+//@ import "unsafe"
+//@ import "github.com/csgura/fp/internal/atomic"
+//
+//@ ghost
+//@ func promState[T any](p unsafe.Pointer) int {
+//@ 	switch (*atomic.ValuePtr)(p).Value().(type) {
+//@ 	case nil:
+//@ 		return 0
+//@ 	case []onCompleteFunc[T]:
+//@ 		return 1
+//@ 	case Try[T]:
+//@ 		return 2
+//@ 	}
+//@ 	return 3
+//@ }
+//@ func promList[T any](p unsafe.Pointer) []onCompleteFunc[T] {
+//@ 	l, _ := (*atomic.ValuePtr)(p).Value().([]onCompleteFunc[T])
+//@ 	return l
+//@ }
+//@ func promDone[T any](p unsafe.Pointer) Try[T] {
+//@ 	t, _ := (*atomic.ValuePtr)(p).Value().(Try[T])
+//@ 	return t
+//@ }
+//@ func promPrefix[T any](a, b []onCompleteFunc[T]) bool {
+//@ 	return len(a) <= len(b) && (forall i int :: 0 <= i && i < len(a) ==> Same(a[i], b[i]))
+//@ }
+//@ func promWF[T any](p unsafe.Pointer) bool {
+//@ 	l := promList[T](p)
+//@ 	return promState[T](p) != 3 && (promState[T](p) == 1 ==> (forall i int :: 0 <= i && i < len(l) ==> l[i] != nil))
+//@ }
+//@ func promGuar[T any](o, n unsafe.Pointer) bool {
+//@ 	so, sn := promState[T](o), promState[T](n)
+//@ 	if !promWF[T](n) {
+//@ 		return false
+//@ 	}
+//@ 	if so == 0 {
+//@ 		return sn == 2 || sn == 1 && len(promList[T](n)) == 1
+//@ 	}
+//@ 	if so == 1 {
+//@ 		return sn == 2 || sn == 1 && len(promList[T](n)) == len(promList[T](o))+1 && promPrefix(promList[T](o), promList[T](n))
+//@ 	}
+//@ 	return false
+//@ }
+//@ func promRely[T any](o, n unsafe.Pointer) bool {
+//@ 	so, sn := promState[T](o), promState[T](n)
+//@ 	if !promWF[T](n) {
+//@ 		return false
+//@ 	}
+//@ 	if so == 2 {
+//@ 		return o == n
+//@ 	}
+//@ 	if so == 1 {
+//@ 		return sn == 2 || sn == 1 && promPrefix(promList[T](o), promList[T](n))
+//@ 	}
+//@ 	return so == 0 && sn != 3
+//@ }
+//@ func promSetup[T any]() Promise[T] {
+//@ 	verifspec.SetRelyPtr(func(o, n unsafe.Pointer) bool { return promRely[T](o, n) })
+//@ 	verifspec.SetGuaranteePtr(func(o, n unsafe.Pointer) bool { return promGuar[T](o, n) })
+//@ 	return NewPromise[T]()
+//@ }
+//@ func promTryComplete[T any](v Try[T]) bool {
+//@ 	r := promSetup[T]()
+//@ 	ok, cbs := r.tryCompleteAndGetListeners(v)
+//@ 	_ = cbs
+//@ 	if !r.IsCompleted() {
+//@ 		return false
+//@ 	}
+//@ 	if ok {
+//@ 		return verifspec.AtomicWrites() == 1 && verifspec.Eq(verifspec.W(r.Value()), verifspec.W(v)) && verifspec.TraceLen() == 0
+//@ 	}
+//@ 	return verifspec.AtomicWrites() == 0 && verifspec.TraceLen() == 0
+//@ }
+//@ func promDispatch[T any](cb onCompleteFunc[T]) bool {
+//@ 	r := promSetup[T]()
+//@ 	r.dispatchOrAddCallback(cb)
+//@ 	if verifspec.AtomicWrites() == 1 {
+//@ 		return verifspec.TraceLen() == 0
+//@ 	}
+//@ 	return verifspec.AtomicWrites() == 0 && r.IsCompleted() && verifspec.CalledOnce(cb, r.Value())
+//@ }
+//@ func promComplete[T any](v Try[T]) bool {
+//@ 	r := promSetup[T]()
+//@ 	ok := r.Complete(v)
+//@ 	if !r.IsCompleted() {
+//@ 		return false
+//@ 	}
+//@ 	if ok {
+//@ 		return verifspec.AtomicWrites() == 1 && verifspec.Eq(verifspec.W(r.Value()), verifspec.W(v))
+//@ 	}
+//@ 	return verifspec.AtomicWrites() == 0 && verifspec.TraceLen() == 0
+//@ }
+//@ end
+//
+//@ lemma promiseTryComplete[T any](v Try[T])
+//@   prop C05
+//@   option tailrec=tryCompleteAndGetListeners
+//@   ensures promTryComplete(v)
+//
+//@ lemma promiseDispatch[T any](cb onCompleteFunc[T])
+//@   prop C05
+//@   option tailrec=dispatchOrAddCallback
+//@   ensures promDispatch(cb)
+//
+//@ func (Promise).Complete(r, result) ret
+//@   loop 0 invariant 0 <= idx_ && idx_ < len(cbs)
+//@   loop 0 decreases len(cbs) - idx_
+//
+//@ lemma promiseComplete[T any](v Try[T])
+//@   prop C05
+//@   option tailrec=tryCompleteAndGetListeners
+//@   ensures promComplete(v)
+//
+//@ lemma promiseZeroValue[T any](v Try[T], cb func(Try[T]), e error, x T)
+//@   prop C05
+//@   ensures !Promise[T]{}.Complete(v) && !Promise[T]{}.Success(x) && !Promise[T]{}.Failure(e) && !Promise[T]{}.IsCompleted()
+//@   ensures verifspec.Do(func() { Promise[T]{}.Future().OnComplete(cb) }) == 0 && TraceLen() == 0 && Spawned() == 0
+//@   ensures !Promise[T]{}.Future().IsCompleted()
